@@ -1062,7 +1062,7 @@ class ChannelFactory:
             try:
                 data = loads_internal(data, channel, strconfig)
                 callback(data)  # even if channel may be already closed
-            except Exception as exc:
+            except (Exception, SystemExit) as exc:
                 self.gateway._trace("exception during callback: %s" % exc)
                 errortext = self.gateway._geterrortext(exc)
                 self.gateway._send(
